@@ -12,10 +12,16 @@ package main
 // visible; inside a tx every statement sees the tx's own earlier changes on top of one fixed
 // snapshot (checked through the primary and through every secondary index); no session ever
 // sees uncommitted changes of another; affected-row counts and generated keys match.
+//
+// Two further parts run after these cases (added for seeded change c13-a): c13_ddl.go — DDL schedules
+// (sessions with open empty / query-only / writing transactions while others commit DDL; a fresh session's
+// view of catalog and rows after every commit vs a reference database) and c13_cache.go — catalog-cache
+// schedules tied to the Lean model Sql/CatalogCache.lean.
 
 import (
 	"context"
 	"fmt"
+	"os"
 	"strconv"
 	"strings"
 
@@ -433,6 +439,7 @@ func (c *c13Case) step(s *c13Session) {
 			return
 		}
 		s.tx = res.Tx
+		s.engUpd = res.OpenUpd // the engine restored its counters, whatever the reference thinks of the savepoint (the next statement's delta is relative to them)
 		if at < 0 {
 			if !s.unknown {
 				cz := ""
@@ -679,6 +686,10 @@ func runC13(r *hx.Result, rng *hx.Rng, thorough bool, replay string) error {
 	if thorough {
 		cases = 400
 	}
+	part := os.Getenv("VERIF_C13_PART") // development aid: "ddl" runs only the DDL schedules, "cache" only the catalog-cache schedules
+	if part != "" {
+		cases = 0
+	}
 	for i := 0; i < cases; i++ {
 		c := &c13Case{r: r, rng: rng.Fork()}
 		c.run(thorough)
@@ -688,8 +699,21 @@ func runC13(r *hx.Result, rng *hx.Rng, thorough bool, replay string) error {
 			}
 		}
 	}
+	// DDL schedules (c13_ddl.go): sessions with open (empty / read-only-so-far / writing) transactions while others commit DDL
+	ddlRng, cacheRng := rng.Fork(), rng.Fork()
+	if part == "" || part == "ddl" {
+		if err := runC13DDL(r, ddlRng, thorough); err != nil {
+			return err
+		}
+	}
+	// catalog-cache schedules tied to the Lean model Sql/CatalogCache.lean (c13_cache.go)
+	if part == "" || part == "cache" {
+		if err := runC13Cache(r, cacheRng, thorough); err != nil {
+			return err
+		}
+	}
 	for _, k := range []string{"op.begin", "op.commit", "op.rollback", "op.savepoint", "op.rollback-to", "op.release", "op.session-closed", "op.read", "view.in-tx", "case.corr"} {
-		if r.Distribution[k] == 0 {
+		if r.Distribution[k] == 0 && part == "" {
 			r.Inconclusive = append(r.Inconclusive, "generator never produced class "+k)
 		}
 	}
